@@ -93,6 +93,14 @@ def exp_entity(e):
 
 
 def proj_entity(e):
+    """total: whatever the library returns is projected, never raised on (an entity of an unexpected shape is a verdict, not a crash)"""
+    try:
+        return _proj_entity(e)
+    except Exception as x:  # noqa
+        return {"kind": "?", "unprojectable": type(x).__name__, "keys": sorted(e)[:5] if isinstance(e, dict) else str(type(e))}
+
+
+def _proj_entity(e):
     for key, k in MARKER:
         if key in e:
             out = {"kind": k, "name": e[key]}
